@@ -18,7 +18,7 @@ from specs import ref_wire as W
 
 PRELUDE = '''# replay of a counterexample found by /verif on the real rpyc
 import sys, struct, enum, collections, types
-sys.path.insert(0, "/repo")
+sys.path.insert(0, __import__("os").environ.get("VERIF_REPO", "/repo"))
 from rpyc.core import brine
 def F(hexbits): return struct.unpack("!d", bytes.fromhex(hexbits))[0]
 class Color(enum.IntEnum):
